@@ -141,7 +141,7 @@ def check_C12(run):
     g = Gen(run.seed * 1000 + 12)
     types = {"d": 0.85, "z": 0.45, "s": 0.4, "c": 0.35} if run.tier == "quick" else FULL_TYPES
     run.conform("lacon", F.fam_lacon(g, "C12", sizes(run, 400, 4000), {"d": 1.0, "s": 0.5}), ["C12."])
-    run.conform("cond", merge(F.fam_cond(g, "C12", sizes(run, 700, 6000), types), F.fam_singular(g, "C12", sizes(run, 150, 1500), types, fn="gssvx"),
+    run.conform("cond", merge(F.fam_cond(g, "C12", sizes(run, 700, 6000), types), F.fam_singular(g, "C12", sizes(run, 120, 1200), {"d": 1.0, "z": 1.0, "s": 1.0, "c": 1.0}, fn="gssvx"),
                               F.fam_cond_big(g, "C12", sizes(run, 300, 3000), types)), ["C12."])
     return run.finish(rule="the estimator automaton replayed on explicit operators; expert-driver runs over graded / generic / random-float systems with condition numbers from 1 to beyond 1/eps, both norms (Trans), both storages, equilibration on/off; singular systems for the growth factor")
 
@@ -420,7 +420,7 @@ def check_C08(run):
     # size query: lwork = -1 changes nothing but info / mem_usage
     gq = Gen(run.seed * 1000 + 88)
     types = QUICK_TYPES if run.tier == "quick" else FULL_TYPES
-    run.conform("query", F.fam_query(gq, "C08", sizes(run, 150, 1500), types), ["C08."], tv_env={"MODE": "light"})
+    run.conform("query", F.fam_query(gq, "C08", sizes(run, 200, 2000), types), ["C08.", "C19.leak"], tv_env={"MODE": "light"})      # a query retains nothing either
     # library allocation: every failure position among the allocation requests of a factorization
     gf = Gen(run.seed * 1000 + 89)
     run.conform("failpos", F.fam_failpos(gf, "C08", sizes(run, 12, 60), types), ["C08."], timeout=5, tv_env={"MODE": "light"})
